@@ -8,6 +8,8 @@ for d in sorted(glob.glob("/verif/seeded/C*")):
     first = c.get("first_check_run", {})
     fr = ("caught: " + (first.get("clauses") or "")) if first.get("exit") == 1 else "MISSED"
     now = c.get("after_strengthening") or ("caught" if first.get("exit") == 1 else c.get("status", "open"))
+    if isinstance(now, dict):
+        now = "caught after strengthening: " + str(now.get("clauses", ""))
     what = (m.get("what") or "").replace("\n", " ").replace("|", "/")[:170]
     needs = (m.get("needs") or "").replace("\n", " ").replace("|", "/")[:140]
     print(f"| {os.path.basename(d)} | {what} | {needs} | {fr[:90]} | {now[:120]} |")
